@@ -84,6 +84,9 @@ type scenario struct {
 	// library then makes the TNC wait (for up to a minute), it does not drop what was delivered.
 	LateReaderMS int `json:"late_reader_ms,omitempty"`
 	CutN         int `json:"cut_n,omitempty"`
+	// Again (listen scenarios that end with Close or a remote disconnect): afterwards another station connects and is
+	// accepted on the SAME listener; one frame is delivered and must be read, the station disconnects, Read must end.
+	Again bool `json:"again,omitempty"`
 }
 
 var Check = &vrt.Check{
@@ -130,7 +133,7 @@ var regressClasses = []string{
 	"write-sizes-serial", "write-sizes-tcp", "crcfault-1", "crcfault-2", "crcfault-3", "crcfault-each", "buffer-before-crcfault",
 	"flush-order-serial", "flush-order-tcp", "ptt-order", "close-disconnect-serial", "close-disconnect-tcp",
 	"remote-disconnect", "cut-mid-frame-serial", "cut-mid-frame-tcp", "garbage-serial", "garbage-tcp",
-	"burst-stalled-reader", "listen-serial", "listen-tcp", "offline-start", "empty-frames", "dial-greeting", "close-undrained-serial", "close-undrained-tcp", "dial-apis", "backlog-serial", "backlog-tcp", "slow-state-follower",
+	"burst-stalled-reader", "listen-serial", "listen-tcp", "offline-start", "empty-frames", "dial-greeting", "close-undrained-serial", "close-undrained-tcp", "dial-apis", "backlog-serial", "backlog-tcp", "slow-state-follower", "listen-twice",
 }
 
 func plan(seed int64, tier string) []vrt.Case {
